@@ -264,7 +264,65 @@ CHECKS.append({
     "design_ref": "DESIGN.md section 7, C08",
 })
 
-_PENDING = "vertical not yet built in this session (see DESIGN.md section 9 staging); decided by Coq proof + correspondence when it lands"
+CHECKS.append({
+    "property_id": "C01",
+    "text": ("coq/Props/C01.v over coq/Model/LogixRead.v (request parsing, read / fragmented / multi-service messages, multi-service demux with "
+             "the 46-byte padding, reply parse and decode by uploaded type, fragment loop, read()'s bit / BOOL-range extraction and type strings) "
+             "composed with the reference target's handler and compared with the reference interpretation Spec/Expect.v ref_read. Proved "
+             "(universally quantified, induction): bit_extract; dword_cover / bool_range (the idx -> [0], total = bit + n, ceil(total/32) "
+             "arithmetic covers exactly the addressed BOOLs for all idx, n); decode_elem_spec (reply decode of target encode = reference value, by "
+             "induction on template nesting: atomics, arrays, structs with hidden hosts and bit members, strings, BOOL arrays); frag_read_ok "
+             "(reassembly for ANY fragment policy); multi_read_ok; read_transport (any number of requests under any plan); read_correct_partial "
+             "= the full C01 conclusion (truthy Tag, value = ref_read, documented type string) for every request satisfying request_ok, over all "
+             "projects with a sound layout, all memory images, fragment policies, connection sizes, single / multi / fragmented plans; the string "
+             "layer request_ok is PROVED end to end for whole tags of any type, name[i,j,k].b{n} on atomic / array / struct / string tags and all "
+             "BOOL-array forms (C01_tags_hold, C01_single_segment_holds), by symbolic or instance addressing. NOT proved: request_ok for "
+             "structure-member paths (tag.member[..].x) and program-scoped tags — there it is a hypothesis and only the correspondence and the "
+             "oracle cover them. C01_full is refuted by one witness replayed on the real driver (element count >= 65536 does not fit the UINT "
+             "field; known finding) and proved under that guard given resolution soundness. Tie: byte-for-byte request frames and Tags, model vs "
+             "real LogixDriver.read against the live target; oracle: every returned Tag vs ref_read on random projects, both connection sizes, "
+             "fragment policies, size sweeps around the connection size, Micro800."),
+    "note": COMMON_NOTE + " C01: closed under the global context. Hypotheses that remain: layout_ok, upload_ok (client tags match the project), plain ASCII names; encapsulation headers and the sequence count are not modelled here (C11/C17).",
+    "technique": "Coq proof (client model composed with the reference target = reference interpretation; induction on templates, fragments, request lists) + frame/Tag correspondence and value oracle through the live target",
+    "design_ref": "DESIGN.md section 7, C01",
+})
+CHECKS.append({
+    "property_id": "C05",
+    "text": ("Theorem C05_holds (coq/Props/C05.v) over coq/Model/LogixUpload.v (paged symbol upload, _parse_instance_attribute_list, "
+             "_isolate_user_tags, _create_tag, template attributes, fragmented template read, _parse_template_data(_member_info), string "
+             "detection, data-type cache, tags_json) composed with the reference target's symbol and template objects, against Spec/Expect.v "
+             "abstract_view rendered by Spec/UploadObs.v: upload_mirrors — for every well-formed project in the stated domain, EVERY page policy, "
+             "EVERY template-fragment policy, every reply capacity 34..65535, every firmware revision and every fuel above a stated bound, the "
+             "client returns exactly the user-visible tags (data type, dimensions, access, alias flag, instance id) and type definitions "
+             "(visible members with offsets, bit positions, array lengths, nested definitions, hidden hosts removed, LEN/DATA structures as "
+             "strings of the DATA capacity), programs, routines and tasks — none missing, duplicated or invented (NoDup + Permutation), with "
+             "pagination_independent and template_fragment_independent as lemmas over ANY split, isolate_filter_exact, create_tag_fields, "
+             "member_info_decode, get_data_type_mirrors by strong induction on template nesting, tags_json_serialisable. Tie: the model is fed "
+             "the exact reply frames the real driver received and must emit the same requests and trees; oracle: real open()/get_tag_list "
+             "against the live target vs the abstract view, identical across policies, json.dumps succeeds; calibration against the two "
+             "real-controller fixtures in the thorough tier."),
+    "note": COMMON_NOTE + " C05: closed under the global context. Composition is at the message-router seam (encapsulation/sequencing: C10/C11/C17). The domain upload_dom (ascending instances, Logix naming rules for ':' and ';', size bounds) is spelled out in Props/C05.v; info['modules'] and non-ASCII names are not modelled.",
+    "technique": "Coq proof (client upload model composed with the reference target = abstract view, for all page/fragment policies; induction on pages, fragments and template nesting) + reply-level correspondence and view oracle through the live target",
+    "design_ref": "DESIGN.md section 7, C05",
+})
+CHECKS.append({
+    "property_id": "C18",
+    "text": ("Theorem C18_holds (coq/Props/C18.v) over coq/Model/Slc.v (parse_tag cascade on the seven address patterns — regenerated from "
+             "slc_driver.py into the AST of the backtracking matcher coq/Model/Regex.v, with the match method read from the source — request "
+             "fields with the FF-escape address form, writeable_value masks, _parse_read_reply, request_status; PCCC tables regenerated) against "
+             "the independent address ADT + PCCC data-table target coq/Spec/SlcTarget.v: parse_addr / parse_raw (every well-formed address in "
+             "every spelling — case, leading zeros, /b, Bf/n, {count}, optional I/O file and word, T/C mnemonics — parses to exactly its fields; "
+             "regex steps by matcher lemmas about greedy digit runs, not enumeration), request_names_read/write (the target's own parser reads "
+             "file, type, element, sub-element and size = element size x count; masks 2^bit or 0xFFFF), read_correct, write_then_read with "
+             "ref_write_frame (other files untouched, exactly count elements, a bit write changes one bit), rejection of unsupported letters and "
+             "out-of-range or over-long file / element / bit numbers. Tie: correspondence on ~34k parse strings / requests / scripted replies "
+             "(grammar + single-character edits + affixes); oracle: real SLCDriver.read/write against the extracted target."),
+    "note": COMMON_NOTE + " C18: closed under the global context. bytes values and the ST/A string codecs are not modelled; F values are binary32 bit patterns (NaN excluded); wrong-but-in-range I/O file numbers and affix rejection are checked by Example + correspondence, not by a general theorem.",
+    "technique": "Coq proof (regex-matcher lemmas, parser soundness over all spellings, refinement to a data-table model) + model/implementation correspondence and SLC target oracle",
+    "design_ref": "DESIGN.md section 7, C18",
+})
+
+_PENDING = "vertical still being completed (codec round-trip proofs in progress; model and correspondence exist: coq/Model/Codec.v, harness/codec_common.py); decided by Coq proof + correspondence when it lands"
 _CLAIMED = {c["property_id"] for c in CHECKS}
 NOT_APPLICABLE = [{"property_id": f"C{i:02d}", "reason": _PENDING} for i in range(1, 20) if f"C{i:02d}" not in _CLAIMED]
 
